@@ -495,7 +495,22 @@ impl WorldB {
                             kind, role, self.universe[i], post.allow[i].0, pre.allow[i].0, exp_allow[i].0
                         ),
                     );
-                } else if !post.allow[i].0.is_empty() {
+                } else if post.allow[i].0.is_empty() {
+                    // a spend deducts coins and changes nothing else: the (unexpired) allowance keeps its
+                    // expiry even when the spend exhausts it
+                    if kind == "execute" && check_expiry_of == Some(i) && !pre.allow[i].0.is_empty() && post.allow[i].1 != pre.allow[i].1 {
+                        self.viol(
+                            out,
+                            "C08",
+                            "spend-changed-expiry",
+                            json!({"exhausted": true}),
+                            format!(
+                                "execute: the spend exhausted {}'s allowance and its expiry changed {:?} -> {:?}",
+                                self.universe[i], pre.allow[i].1, post.allow[i].1
+                            ),
+                        );
+                    }
+                } else {
                     let want = if check_expiry_of == Some(i) { exp_allow[i].1 } else { pre.allow[i].1 };
                     // an allowance that was empty before has no meaningful previous expiry
                     let comparable = !pre.allow[i].0.is_empty() || (check_expiry_of == Some(i) && kind != "execute");
